@@ -285,6 +285,8 @@ where
         if full {
             self.flush()?;
         }
+        #[cfg(feature = "verif-hooks")]
+        crate::verif::wrote_to_chunker(bytes);
         Ok(bytes)
     }
 
